@@ -87,6 +87,9 @@ def worlds(tier, focus):
             W.append(('long-delay+in-flight-bystander a=%d' % da,
                       World([Scen('r', 'C', 0, None, budget=1, delay=True, durs=(0, 0), fails=(True, False)), Scen('a', 'C', 0, None, durs=(da,), fails=(False,))], 2,
                             sleep_polls=da + 3)))
+    if focus == 'C10':
+        # two runs one after the other in the same process: process-wide state (statics, the panic hook) is carried over
+        W.append(('two-runs-in-one-process', World([Scen('a', 'C', 0, None, durs=(0,), fails=(True,)), Scen('b', 'C', 0, None, durs=(1,), fails=(False,))], 2, runs=2)))
     for d in ([(0, 0, 0), (1, 0, 0)] if tier != 'thorough' else durs3):
         for limit in (2, 3):
             W.append(('failfast-plain d=%s limit=%s' % (d, limit),
